@@ -279,6 +279,13 @@ def generate(rng, tier, index):
     if rng.random() < 0.3:
         top_lines.append('  <key name="od" datatype="string" '
                          'default="left\u2028right"/>')
+    # a section whose key has an application datatype that starts another
+    # load (used by the nested-load phase only)
+    types.append("zznest")
+    top_lines += ['  <sectiontype name="zznest">',
+                  '    <key name="nk" datatype="zcsim.simdt.nested"/>',
+                  '  </sectiontype>',
+                  '  <multisection type="zznest" name="*" attribute="zn"/>']
     top_lines += ['  <key name="ov" datatype="string" default="unset"/>',
                   '  <multikey name="k" datatype="string"/>',
                   '  <multisection type="st" name="*" attribute="s"/>']
@@ -333,7 +340,14 @@ def generate(rng, tier, index):
     if withkids and rng.random() < 0.3:
         r = rng.choice(withkids)
         symlink = os.path.join(r["dir"], r["file"])
+    nest_victim = None
+    for c_ in res[0]["children"]:
+        if not c_.get("in_section"):
+            nest_victim = os.path.join(c_["dir"], c_["file"])
+            break
     plan = {"prop": ID, "kind": "scenario", "dirs": dirs, "files": files,
+            "nest_victim": nest_victim,
+            "pipe_phase": rng.random() < 0.15,
             "symlink": symlink,
             "decoys": decoys, "cwd": cwd, "config_top": cfg_order[0],
             "config_order": cfg_order, "schema_top": sch["top"],
@@ -996,6 +1010,123 @@ def _execute(plan, out, root, root_b, scratch):
                     os.rename(victim + ".away", victim)
                     for dp in planted:
                         os.unlink(dp)
+        # ---- resources that are not regular files ---------------------------------
+        # (a name that leads to a pipe: a generated fragment, a process
+        # substitution; a resource is what reading it yields by every way of
+        # naming it)
+        if plan.get("pipe_phase"):
+            pdir = os.path.dirname(cfull)
+            ptop = os.path.join(pdir, "zz-pipe-top.conf")
+            pfrag = os.path.join(pdir, "zz-pipe-frag.conf")
+            fds = []
+
+            def fill(path, data):
+                rfd, wfd = os.pipe()
+                os.write(wfd, data)
+                os.close(wfd)
+                fds.append(rfd)
+                if os.path.lexists(path):
+                    os.unlink(path)
+                os.symlink("/proc/self/fd/%d" % rfd, path)
+            try:
+                for shape in ("fragment", "top"):
+                    for entry in ("abs-path", "url", "file-abs", "rel-path"):
+                        if shape == "fragment":
+                            if os.path.lexists(ptop):
+                                os.unlink(ptop)
+                            with open(ptop, "w", encoding="utf-8") as f:
+                                f.write("k a\n%include zz-pipe-frag.conf\n"
+                                        "k b\n")
+                            fill(pfrag, b"k PIPE\n")
+                            wantp = ["a", "PIPE", "b"]
+                        else:
+                            fill(ptop, b"k TOP-PIPE\n")
+                            wantp = ["TOP-PIPE"]
+                        w.begin_op("config:pipe-%s:%s" % (shape, entry))
+
+                        def runp(entry=entry):
+                            cfg, _h = _enter(
+                                entry, ptop,
+                                lambda u: ZConfig.loadConfig(schema, u),
+                                lambda f: ZConfig.loadConfigFile(schema, f))
+                            return {"ok": True, "got": list(cfg.k)}
+                        op_ = ops.guarded(runp)
+                        w.end_op("ok" if op_["ok"] else op_["cls"])
+                        out["evaluations"] += 1
+                        if not op_["ok"]:
+                            violation("load-failed", "config-pipe",
+                                      "a %s that is a pipe behind a symbolic "
+                                      "link, configuration by %s: %s"
+                                      % (shape, entry, ops.brief(op_)))
+                        elif op_["got"] != wantp:
+                            violation("wrong-result", "config-pipe",
+                                      "a %s that is a pipe, by %s: %r, "
+                                      "expected %r" % (shape, entry,
+                                                       op_["got"], wantp))
+                probe("resource-is-a-pipe")
+            finally:
+                for fd_ in fds:
+                    try:
+                        os.close(fd_)
+                    except OSError:
+                        pass
+                for p_ in (ptop, pfrag):
+                    if os.path.lexists(p_):
+                        os.unlink(p_)
+        # ---- a load started while another load is inside an included file ------
+        # (a datatype of the application loads the SAME configuration again,
+        # with a loader of its own, by every way of naming it: what one load
+        # is in the middle of is nothing to another load)
+        nv = plan.get("nest_victim")
+        if nv and os.path.isfile(os.path.join(root, nv)) \
+                and not os.path.islink(os.path.join(root, nv)):
+            with open(os.path.join(root, nv), "a", encoding="utf-8") as f:
+                f.write("<zznest x>\nnk go\n</zznest>\n")
+            inner = []
+            want_n = {"k": plan["expect_k"],
+                      "s": [[n, ks] for n, ks in plan["expect_s"]]}
+
+            def nhook(_value):
+                w.nested_hook = None
+                try:
+                    for entry in ("abs-path", "url", "file-abs", "rel-path"):
+                        def runi(entry=entry):
+                            cfg, _h = _enter(
+                                entry, cfull,
+                                lambda u: ZConfig.loadConfig(schema, u),
+                                lambda f: ZConfig.loadConfigFile(schema, f))
+                            return {"ok": True, "got": {
+                                "k": list(cfg.k),
+                                "s": [[x.getSectionName(), list(x.k)]
+                                      for x in cfg.s]}}
+                        inner.append((entry, ops.guarded(runi)))
+                finally:
+                    w.nested_hook = nhook
+            w.nested_hook = nhook
+            w.begin_op("config:nested-load")
+
+            def runo():
+                cfg, _h = ZConfig.loadConfig(schema, cfull)
+                return {"ok": True, "got": {
+                    "k": list(cfg.k),
+                    "s": [[x.getSectionName(), list(x.k)] for x in cfg.s]}}
+            oo = ops.guarded(runo)
+            w.end_op("ok" if oo["ok"] else oo["cls"])
+            w.nested_hook = None
+            out["evaluations"] += 1 + len(inner)
+            probe("load-started-inside-an-included-file")
+            for entry, oi_ in [("outer", oo)] + inner:
+                if not oi_["ok"]:
+                    violation("load-failed", "config-nested-load",
+                              "a load of the configuration started (by %s) "
+                              "while another load of it was inside an "
+                              "included file raised %s"
+                              % (entry, ops.brief(oi_)))
+                elif oi_["got"] != want_n:
+                    violation("wrong-result", "config-nested-load",
+                              "nested load (%s) gives %r, expected %r"
+                              % (entry, oi_["got"], want_n))
+            materialise(plan, root)
         # ---- fragment identifiers ------------------------------------------------------
         fc = plan["fragment_case"]
         w.begin_op("fragment:" + fc)
